@@ -104,7 +104,7 @@ class C24(Spec):
                    'parallel_deriv_color needs MPI and is out of scope; multi-seed soundness is the union lemma']
 
     def gen(self, tier, rng):
-        n = 100 if tier == 'quick' else 700
+        n = 90 if tier == 'quick' else 700
         cases = []
         for k in range(n):
             cpl = (k % 5 == 4)
@@ -137,6 +137,14 @@ class C24(Spec):
             nr = len(spec['responses'])
             history = [[sorted(rng.sample(range(nr), rng.randrange(1, nr + 1))), [0]]] if rng.random() < 0.5 else []
             cases.append({'spec': spec, 'cfg': cfg, 'history': history, 'kind': 'matrix-free-single-desvar:' + cfg['lin']})
+        # model-level approx_totals with a total colouring and design variables declared with `indices`
+        # (the colours' seed variables decide which branches are pruned)
+        for k in range(16 if tier == 'quick' else 120):
+            spec = sg.gen_color_spec(rng)
+            cfg = {'lin': 'runonce', 'jac': None, 'nl': 'nlbgs', 'mf': False, 'approx_model': True,
+                   'coloring': rng.random() < 0.85}
+            cases.append({'spec': spec, 'cfg': cfg, 'history': [],
+                          'kind': 'model-approx_totals' + (':coloring' if cfg['coloring'] else '') + ':indexed-desvar'})
         return cases
 
     def search_gen(self, tier, rng):
